@@ -20,11 +20,18 @@ Shapes == {
     vals |-> {Num(-6), Num(1), Num(8)}, garbage |-> {"nonnumeric"}],
    [id |-> "bool", schemas |-> {[type |-> "boolean"]}, vals |-> {Bool(TRUE), Bool(FALSE)}, garbage |-> {"nonnumeric"}],
    [id |-> "str", schemas |-> {TStr, [type |-> "string", maxLength |-> 1]},
-    vals |-> {S(<<"a">>), S(<<"a", "b">>), S(<<"1", "2">>), S(<<"a", "-", "b">>)}, garbage |-> {}],
+    vals |-> {S(<<"a">>), S(<<"a", "b">>), S(<<"1", "2">>), S(<<"a", "-", "b">>),
+              \* characters that are structural in *some* cell or in the URL syntax, never in this one (Defined)
+              S(<<"a", " ", "b">>), S(<<"a", "\t", "b">>), S(<<"a", "+", "b">>), S(<<"5", "%", "2", "0">>), S(<<"a", "&", "b", "=">>),
+              S(<<"a", ",", "b">>), S(<<"a", "|", "b">>)}, garbage |-> {}],
    [id |-> "arrint", schemas |-> {[type |-> "array", items |-> TInt], [type |-> "array", items |-> TInt, maxItems |-> 2]},
     vals |-> {Arr(<<Num(28)>>), Arr(<<Num(4), Num(8)>>), Arr(<<Num(12), Num(0), Num(48)>>)}, garbage |-> {"nonnumeric"}],
    [id |-> "arrstr", schemas |-> {[type |-> "array", items |-> TStr]},
-    vals |-> {Arr(<<S(<<"a">>)>>), Arr(<<S(<<"a">>), S(<<"b">>)>>)}, garbage |-> {}],
+    vals |-> {Arr(<<S(<<"a">>)>>), Arr(<<S(<<"a">>), S(<<"b">>)>>),
+              Arr(<<S(<<"a", "\t", "b">>), S(<<"c">>)>>), Arr(<<S(<<"a", " ", "b">>), S(<<"c">>)>>),
+              Arr(<<S(<<"a", "|", "b">>), S(<<"c", "+">>)>>), Arr(<<S(<<"a", ",", "b">>), S(<<"c">>)>>)},
+              \* (an empty string among the items is the open region "empty parameter values": not in the universe)
+    garbage |-> {}],
    [id |-> "obj", schemas |-> {ObjXY, [ObjXY EXCEPT !.pk = <<"x", "y">>] @@ [required |-> <<"y">>]},
     vals |-> {Obj(<<"x">>, <<Num(4)>>), Obj(<<"x", "y">>, <<Num(4), S(<<"a">>)>>), Obj(<<"y">>, <<S(<<"a", "b">>)>>)},
     garbage |-> {"oddpairs"}],
@@ -45,6 +52,10 @@ Shapes == {
 
 SomeVal(sh) == CHOOSE v \in sh.vals : TRUE
 
+(* a schema default (a value of the shape that the schema accepts), for the shapes whose schemas are plain *)
+HasDefault(sh, s) == sh.id \in {"int", "num", "bool", "str", "arrint", "arrstr", "obj"} /\ \E v \in sh.vals : Valid(s, v, "plain")
+WithDefault(sh, s, df) == IF df THEN s @@ [default |-> CHOOSE v \in sh.vals : Valid(s, v, "plain")] ELSE s
+
 (* where a kind of garbage makes sense *)
 GarbageOK(c, sh, g) ==
    CASE g \in {"nonnumeric", "overflow32"} -> ~(c.style \in {"deepObject"}) /\ Defined(c, SomeVal(sh))
@@ -55,23 +66,27 @@ DecoyOK(c, v) == ~(v.t = "obj" /\ c.style # "deepObject") /\ ~(c.style = "deepOb
 
 VARIABLE case
 Init ==
-   \/ \E c \in Cells, sh \in Shapes, r \in BOOLEAN, d \in BOOLEAN :
+   \/ \E c \in Cells, sh \in Shapes, r \in BOOLEAN, d \in BOOLEAN, df \in BOOLEAN, ot \in BOOLEAN :
         \E s \in sh.schemas, v \in sh.vals :
            /\ Defined(c, v) /\ (c.in = "path" => r) /\ (d => DecoyOK(c, v))
            /\ (sh.id = "deep" => c.style = "deepObject")
-           /\ case = [cell |-> c, shape |-> sh.id, schema |-> s, required |-> r, presence |-> "present", v |-> v,
-                      wire |-> Wire(c, "p", v), decoy |-> d]
-   \/ \E c \in Cells, sh \in Shapes, r \in BOOLEAN, d \in BOOLEAN :
+           /\ (df => HasDefault(sh, s) /\ ~d) /\ (ot => c.in = "query" /\ ~d /\ ~df)
+           /\ case = [cell |-> c, shape |-> sh.id, schema |-> WithDefault(sh, s, df), required |-> r, presence |-> "present", v |-> v,
+                      wire |-> Wire(c, "p", v), decoy |-> d, defaults |-> df, other |-> ot]
+   \* absent: alone, next to a decoy, next to an unrelated query parameter ("other"), and with a schema default that
+   \* validation is asked to install (defaults): a default never stands in for a required parameter
+   \/ \E c \in Cells, sh \in Shapes, r \in BOOLEAN, d \in BOOLEAN, df \in BOOLEAN, ot \in BOOLEAN :
         \E s \in sh.schemas :
            /\ Defined(c, SomeVal(sh)) /\ (c.in = "path" => r) /\ (d => DecoyOK(c, SomeVal(sh)))
            /\ (sh.id = "deep" => c.style = "deepObject")
-           /\ case = [cell |-> c, shape |-> sh.id, schema |-> s, required |-> r, presence |-> "absent",
-                      v |-> SomeVal(sh), decoy |-> d]
+           /\ (df => HasDefault(sh, s) /\ ~d) /\ (ot => c.in = "query" /\ ~d)
+           /\ case = [cell |-> c, shape |-> sh.id, schema |-> WithDefault(sh, s, df), required |-> r, presence |-> "absent",
+                      v |-> SomeVal(sh), decoy |-> d, defaults |-> df, other |-> ot]
    \/ \E c \in Cells, sh \in Shapes, r \in BOOLEAN :
         \E s \in sh.schemas, g \in sh.garbage \cup (IF sh.id = "int" THEN {"noprefix"} ELSE {}) :
            /\ GarbageOK(c, sh, g) /\ (c.in = "path" => r)
            /\ case = [cell |-> c, shape |-> sh.id, schema |-> s, required |-> r, presence |-> "garbage",
-                      g |-> g, v |-> SomeVal(sh), wire |-> Garbage(c, "p", g), decoy |-> FALSE]
+                      g |-> g, v |-> SomeVal(sh), wire |-> Garbage(c, "p", g), decoy |-> FALSE, defaults |-> FALSE, other |-> FALSE]
    \* emptiness: the parameter is there, its value is the empty text ("p=", "X-P:", "p=" in the cookie)
    \/ \E c \in Cells, sh \in Shapes, r \in BOOLEAN, ae \in BOOLEAN :
         \E s \in sh.schemas :
@@ -79,7 +94,7 @@ Init ==
            /\ sh.id \in {"int", "num", "bool", "str", "arrint"} /\ Defined(c, SomeVal(sh))
            /\ (ae => c.in = "query")                   \* allowEmptyValue exists for query parameters only
            /\ case = [cell |-> c, shape |-> sh.id, schema |-> s, required |-> r, presence |-> "empty", allowEmpty |-> ae,
-                      v |-> SomeVal(sh), decoy |-> FALSE,
+                      v |-> SomeVal(sh), decoy |-> FALSE, defaults |-> FALSE, other |-> FALSE,
                       wire |-> (CASE c.in = "query" -> [kind |-> "query", pairs |-> <<Pair("p", "")>>]
                                   [] c.in = "header" -> [kind |-> "header", val |-> ""]
                                   [] c.in = "cookie" -> [kind |-> "cookie", val |-> ""])]
